@@ -32,7 +32,7 @@ def build_cases(tier, seed):
         if k == 0:
             ctrl = {"stack": ["Dispatcher", {"hostile": {"p": 0.3, "per_vehicle": 2}}, "ChargingFleetManager", {"hostile": {"p": 0.3}}]}
         elif k == 1:
-            ctrl = {"stack": [{"hostile": {"p": 0.4}}, "Dispatcher", "ChargingFleetManager"]}
+            ctrl = {"stack": [{"hostile": {"p": 0.4}}, {"stateful": {"k": 2}}, "Dispatcher", "ChargingFleetManager"]}
         elif k == 2:
             ctrl = {"stack": ["Dispatcher", "ChargingFleetManager", {"hostile": {"p": 0.25}}, {"hostile": {"p": 0.25}}, {"hostile": {"p": 0.25, "per_vehicle": 2}}]}
         else:
